@@ -53,7 +53,7 @@ var alphabet = []event{
 	{Kind: "select.req"}, {Kind: "deselect.req"}, {Kind: "linktest.req"}, {Kind: "separate.req"},
 	{Kind: "select.rsp"}, {Kind: "deselect.rsp"}, {Kind: "linktest.rsp"}, {Kind: "reject.req"},
 	{Kind: "data.primary"}, {Kind: "data.secondary"}, {Kind: "data.foreign"},
-	{Kind: "ptype"}, {Kind: "stype8"}, {Kind: "ctrl.body"}, {Kind: "connect2"}, {Kind: "select.rsp.own"},
+	{Kind: "ptype"}, {Kind: "stype8"}, {Kind: "ctrl.body"}, {Kind: "connect2"}, {Kind: "select.rsp.own"}, {Kind: "select.rsp.own1"},
 }
 
 // ---- reference responder (SEMI E37 / E37.1) ----
@@ -207,6 +207,18 @@ func run(t *testing.T, cfg config, hist []event) (obs []stepObs, fail *failure, 
 					sent = peer.Ctrl(peer.SSelectRsp, libSession, 0, 0, r.ownSelect)
 					r.ownSelect = 0
 					r.selected = true
+				}
+			case "select.rsp.own1":
+				// the peer answers the library's own Select.req with status 1 ("communication
+				// already active"): E37 — a non-zero select status makes NO state transition
+				if r.ownSelect == 0 {
+					sent = peer.Ctrl(peer.SSelectRsp, sid, 0, 1, sys)
+					if r.connected {
+						ex.frames = []string{peer.Ctrl(peer.SRejectReq, sid, peer.SSelectRsp, 3, sys).Key()}
+					}
+				} else {
+					sent = peer.Ctrl(peer.SSelectRsp, libSession, 0, 1, r.ownSelect)
+					r.ownSelect = 0
 				}
 			case "reject.req":
 				sent = peer.Ctrl(peer.SRejectReq, sid, 1, 3, sys) // orphan Reject: ignored
